@@ -102,7 +102,17 @@ struct CtxRec
   int role = 0;              // 1 = TLS_server_method, 2 = TLS_client_method, 0 = other
   int verify = 0;            // last SSL_CTX_set_verify mode (default SSL_VERIFY_NONE)
   long minProto = 0;         // effective minimum (SSL_CTX_get_min_proto_version after the last set); 0 = none
-  std::string trust = "none"; // none | file | path | file+path | default
+  // the store ACCUMULATES: the SET of sources loaded so far (file / path / default), never "the last call"
+  bool tFile = false, tPath = false, tDefault = false;
+  std::string trust() const
+  {
+    std::string t;
+    auto add = [&](const char *n) { if (!t.empty()) t += "+"; t += n; };
+    if (tFile) add("file");
+    if (tPath) add("path");
+    if (tDefault) add("default");
+    return t.empty() ? "none" : t;
+  }
   std::string caFile;
   bool cert = false, key = false;
 };
@@ -193,7 +203,8 @@ extern "C" int SSL_CTX_load_verify_locations(SSL_CTX *c, const char *file, const
     fired("SSL_CTX_load_verify_locations");
     if (rc == 1)
     {
-      it->second.trust = (file && path) ? "file+path" : file ? "file" : "path";
+      if (file) it->second.tFile = true;
+      if (path) it->second.tPath = true;
       it->second.caFile = file ? file : "";
     }
   }
@@ -205,7 +216,7 @@ extern "C" int SSL_CTX_set_default_verify_paths(SSL_CTX *c)
   int rc = real(c);
   std::lock_guard<std::mutex> g(g_imx);
   auto it = g_ctx.find(c);
-  if (it != g_ctx.end()) { fired("SSL_CTX_set_default_verify_paths"); it->second.trust = "default"; }
+  if (it != g_ctx.end()) { fired("SSL_CTX_set_default_verify_paths"); it->second.tDefault = true; }
   return rc;
 }
 extern "C" int SSL_CTX_use_certificate_file(SSL_CTX *c, const char *file, int type)
@@ -336,7 +347,7 @@ static std::string planStr(const CtxRec &c, const SslRec &s)
 {
   std::ostringstream o;
   o << "tls(role=" << (c.role == 1 ? "server" : c.role == 2 ? "client" : "?") << ",verify=" << verifyStr(c.verify)
-    << ",min=" << c.minProto << ",trust=" << c.trust << ",cert=" << (c.cert && c.key ? 1 : 0) << ",host=" << s.host
+    << ",min=" << c.minProto << ",trust=" << c.trust() << ",cert=" << (c.cert && c.key ? 1 : 0) << ",host=" << s.host
     << ",sni=" << s.sni;
   if (s.hsSeen) o << ",hs=(verify=" << verifyStr(s.hsVerify) << ",depth=" << s.hsDepth << ",hostflags=" << s.hsHostFlags << ",host=" << s.hsHost << ")";
   else o << ",hs=-";
@@ -1156,7 +1167,7 @@ static void setSystemStore(const std::string &sys)
 static CellResult runClientCell(const std::vector<std::string> &t)
 {
   CellResult r;
-  setSystemStore("empty");
+  setSystemStore(opt("sys", "empty"));
   const std::string &api = t[1], &trust = t[3], &scert = t[4], &peer = t[6], &target = t[7];
   bool verify = t[2] == "1";
   int ceil = ceilVersion(t[5]);
@@ -1189,6 +1200,21 @@ static CellResult runClientCell(const std::vector<std::string> &t)
   if (trust == "path") cfg.clientTls.caPath = g_dir + "/emptydir";
   cfg.clientTls.minVersion = (int)minv;
   cfg.clientTls.ciphers = cipherString(opt("ciphers"));
+  if (!opt("depth").empty()) cfg.clientTls.verifyDepth = std::atoi(opt("depth").c_str());
+  if (!opt("owncert").empty())
+  {
+    // iora PRESENTS a client certificate (the client-certificate steps of initTls' client block)
+    cfg.clientTls.certFile = g_ck[opt("owncert")].certPath;
+    cfg.clientTls.keyFile = g_ck[opt("owncert")].keyPath;
+  }
+  if (opt("other") == "1")
+  {
+    // a dual-role engine: the SERVER context exists as well (a wrong-role request must not be satisfied by it, nor fall back to clear text)
+    cfg.serverTls.enabled = true;
+    cfg.serverTls.defaultMode = TlsMode::Server;
+    cfg.serverTls.certFile = g_ck["valid"].certPath;
+    cfg.serverTls.keyFile = g_ck["valid"].keyPath;
+  }
   auto obs = std::make_shared<Obs>();
   auto tr = Transport::tcp(cfg);
   std::string app = std::string("APP:") + MARK + "\n", early = std::string("EARLY:") + MARK + "\n";
@@ -1283,6 +1309,10 @@ static CellResult runClientCell(const std::vector<std::string> &t)
     d << "wirever=" << relay.wireVersion() << " peerhs=" << bit(sp.out.hsOk) << " peerapp=" << bit(sp.out.gotApp) << " close="
       << (obs->closeCode >= 0 ? errName((TransportError)obs->closeCode) : "-") << " subst=" << bit(relay.substituted) << " peererr=" << sp.out.err
       << " c2s=" << relay.c2s.size() << " s2c=" << relay.s2c.size();
+    // receive side: everything onData ever saw must be (a prefix of) what the peer SENT AS APPLICATION DATA - ciphertext or handshake
+    // records taken off the socket by a raw ::recv would show up here as foreign bytes
+    const std::string expect = "PONG\n";
+    d << " rx=" << obs->data.size() << " rxodd=" << bit(!(obs->data.size() <= expect.size() && expect.compare(0, obs->data.size(), obs->data) == 0));
     r.diag = d.str();
   }
   return r;
@@ -1292,7 +1322,7 @@ static CellResult runClientCell(const std::vector<std::string> &t)
 static CellResult runServerCell(const std::vector<std::string> &t)
 {
   CellResult r;
-  setSystemStore("empty");
+  setSystemStore(opt("sys", "empty"));
   bool verify = t[1] == "1";
   const std::string &trust = t[2], &own = t[3], &ccert = t[4], &peer = t[6];
   int ceil = ceilVersion(t[5]);
@@ -1310,6 +1340,12 @@ static CellResult runServerCell(const std::vector<std::string> &t)
   if (trust == "path") cfg.serverTls.caPath = g_dir + "/emptydir";
   cfg.serverTls.minVersion = (int)minv;
   cfg.serverTls.ciphers = cipherString(opt("ciphers"));
+  if (!opt("depth").empty()) cfg.serverTls.verifyDepth = std::atoi(opt("depth").c_str());
+  if (opt("other") == "1")
+  {
+    cfg.clientTls.enabled = true;          // a dual-role engine: the CLIENT context exists as well
+    cfg.clientTls.defaultMode = TlsMode::Client;
+  }
   const bool greet = opt("greet") == "1";
   std::string greeting = std::string("GREET:") + MARK + "\n";
   if (own == "unreadable") { cfg.serverTls.certFile = g_dir + "/nope.pem"; cfg.serverTls.keyFile = g_dir + "/nope.key"; }
@@ -1397,6 +1433,8 @@ static CellResult runServerCell(const std::vector<std::string> &t)
     d << "wirever=" << relay.wireVersion() << " peerhs=" << bit(po.hsOk) << " peerpong=" << bit(po.gotPong) << " accept=" << bit(obs->acceptFired)
       << " onconnect=" << bit(obs->connectFired) << " close=" << (obs->closeCode >= 0 ? errName((TransportError)obs->closeCode) : "-")
       << " peererr=" << po.err << " c2s=" << relay.c2s.size() << " s2c=" << relay.s2c.size();
+    const std::string expect = std::string("APP:") + MARK + "\n";
+    d << " rx=" << obs->data.size() << " rxodd=" << bit(!(obs->data.size() <= expect.size() && expect.compare(0, obs->data.size(), obs->data) == 0));
     r.diag = d.str();
   }
   return r;
@@ -1411,7 +1449,7 @@ static CellResult runHttpCell(const std::vector<std::string> &t)
   int ceil = ceilVersion(t[6]);
   setSystemStore(sys);
   std::string reason = "-";
-  for (int attempt = 0; attempt < 3; ++attempt)
+  for (int attempt = 0; attempt < 5; ++attempt)   // HttpClient caps 127.0.0.1 connects (TLS included) at 200 ms: retry time-outs under load
   {
     resetSslLog();
     ServerPeer sp;
@@ -1459,7 +1497,9 @@ static CellResult runHttpCell(const std::vector<std::string> &t)
     auto v = sslSnapshot();
     r.connected = ok;
     r.appdata = ok;
-    r.plan = v.empty() ? (relay.accepted ? "plain" : "refuse(connect)") : planStr(v.back().first, v.back().second);
+    // the transport's own start() refusing (e.g. a caFile that cannot be loaded) is a refusal of the START, not of the connect
+    const bool initRefused = reason.find("Failed_to_start_HTTP_client_transport") != std::string::npos;
+    r.plan = v.empty() ? (relay.accepted ? "plain" : initRefused ? "refuse(start)" : "refuse(connect)") : planStr(v.back().first, v.back().second);
     r.cleartext = relay.sawClear(true, ok);
     r.version = (sp.out.hsOk && ok) ? verName(sp.out.version) : "-";
     std::ostringstream d;
@@ -1475,20 +1515,25 @@ static CellResult runHttpCell(const std::vector<std::string> &t)
 static CellResult runHttpServerCell(const std::vector<std::string> &t)
 {
   CellResult r;
-  setSystemStore("empty");
+  setSystemStore(opt("sys", "empty"));
   bool require = t[1] == "1";
   const std::string &ca = t[2], &own = t[3], &ccert = t[4], &peer = t[6];
   int ceil = ceilVersion(t[5]);
-  resetSslLog();
-  // find a free port (HttpServer binds a fixed port)
-  std::uint16_t port = 0;
-  { int ls = listenLoopback(port); ::close(ls); }
   PeerOut po;
   Relay relay;
   bool refused = false;
   const char *what = "start";
   std::atomic<int> handled{0};
+  // HttpServer binds a fixed port: probe a free one; if another process takes it between the probe and start() (a BIND failure, told
+  // apart from a TLS refusal by the listener error text) the cell is simply tried again with a fresh port
+  for (int attempt = 0; attempt < 4; ++attempt)
   {
+    resetSslLog();
+    refused = false;
+    what = "start";
+    bool bindRace = false;
+    std::uint16_t port = 0;
+    { int ls = listenLoopback(port); ::close(ls); }
     HttpServer srv;
     srv.setPort(port);
     srv.setBindAddress("127.0.0.1");
@@ -1514,7 +1559,12 @@ static CellResult runHttpServerCell(const std::vector<std::string> &t)
     if (!refused)
     {
       try { srv.start(); }
-      catch (const std::exception &) { refused = true; }
+      catch (const std::exception &e)
+      {
+        refused = true;
+        std::string m = e.what();
+        bindRace = m.find("Failed to add listener") != std::string::npos && m.find("TLS") == std::string::npos;
+      }
     }
     if (!refused)
     {
@@ -1523,6 +1573,8 @@ static CellResult runHttpServerCell(const std::vector<std::string> &t)
       std::this_thread::sleep_for(milliseconds(W(po.gotPong ? 20 : 300)));
       srv.stop();
     }
+    if (!bindRace) break;
+    { std::lock_guard<std::mutex> g(g_imx); fired("hsrv(bind-race retry)"); }
   }
   relay.finish();
   r.connected = handled.load() > 0;
@@ -1843,6 +1895,199 @@ static std::string runReconfCell(const std::vector<std::string> &t)
 }
 
 // ======================================================================================= main loop
+// ---- HttpServer call history: hslife <seq> <peer>      seq = E|S|X joined by '-' (E = enableTls(valid cert,key), S = start, X = stop)
+//      After the sequence, if the server is started, ONE request is made by a TLS or a PLAINTEXT client through the recording relay.
+//      `en=` lists, per E, whether the call was accepted (ok) or threw: an ACCEPTED enableTls must be in force on the next request.
+static std::string runHttpServerLifeCell(const std::vector<std::string> &t)
+{
+  CellResult r;
+  setSystemStore("empty");
+  const std::string &seq = t[1], &peer = t[2];
+  PeerOut po;
+  Relay relay;
+  std::atomic<int> handled{0};
+  std::string en;
+  bool started = false, startThrew = false;
+  for (int attempt = 0; attempt < 4; ++attempt)
+  {
+    resetSslLog();
+    en.clear();
+    started = false;
+    startThrew = false;
+    bool bindRace = false;
+    std::uint16_t port = 0;
+    { int ls = listenLoopback(port); ::close(ls); }
+    HttpServer srv;
+    srv.setPort(port);
+    srv.setBindAddress("127.0.0.1");
+    srv.onGet("/c07", [&](const HttpServer::Request &, HttpServer::Response &res)
+              {
+                handled++;
+                res.set_content("PONG", "text/plain");
+              });
+    std::istringstream ss(seq);
+    std::string op;
+    while (std::getline(ss, op, '-'))
+    {
+      if (op == "E")
+      {
+        bool threw = false;
+        try
+        {
+          HttpServer::TlsConfig tc;
+          tc.certFile = g_ck["valid"].certPath;
+          tc.keyFile = g_ck["valid"].keyPath;
+          srv.enableTls(tc);
+        }
+        catch (const std::exception &) { threw = true; }
+        if (!en.empty()) en += ",";
+        en += threw ? "throw" : "ok";
+      }
+      else if (op == "S")
+      {
+        try { srv.start(); started = true; }
+        catch (const std::exception &e)
+        {
+          startThrew = true;
+          std::string m = e.what();
+          bindRace = m.find("Failed to add listener") != std::string::npos && m.find("TLS") == std::string::npos;
+          break;
+        }
+      }
+      else if (op == "X")
+      {
+        srv.stop();
+        started = false;
+      }
+      else throw std::invalid_argument("hslife: unknown op");
+    }
+    if (started)
+    {
+      resetSslLog();      // only the SSL objects of the request below count
+      relay.start(port);
+      clientPeer(relay.port, peerKind(peer), "none", TLS1_3_VERSION, true, po);
+      std::this_thread::sleep_for(milliseconds(W(po.gotPong ? 20 : 300)));
+    }
+    // snapshot BEFORE the server (and with it the engine's contexts) goes away
+    r.plan = !started ? (startThrew ? "refuse(start)" : "none") : observedPlan(false, "start", relay.accepted);
+    if (started) srv.stop();
+    if (!bindRace) break;
+    { std::lock_guard<std::mutex> g(g_imx); fired("hsrv(bind-race retry)"); }
+  }
+  relay.finish();
+  r.connected = handled.load() > 0;
+  r.appdata = handled.load() > 0;
+  r.cleartext = relay.sawClear(false, r.appdata);
+  r.version = (po.hsOk && r.connected) ? verName(po.version) : "-";
+  r.extra = " en=" + (en.empty() ? std::string("-") : en);
+  std::ostringstream d;
+  d << "wirever=" << relay.wireVersion() << " peerhs=" << bit(po.hsOk) << " peerpong=" << bit(po.gotPong) << " peererr=" << po.err;
+  r.diag = d.str();
+  return r.line();
+}
+
+// ---- HttpClient whose first initialisation FAILS: hinit <badfile|missing> <name|ip>
+//      setTlsConfig{verifyPeer, caFile = unloadable}; https GET (ensureInitialized throws); setTlsConfig{verifyPeer, no caFile}
+//      (the system store holds the right CA); https GET to the host by NAME or by IP.  The second request is only sent when the corrected
+//      settings were accepted (on a client left with a dead transport it would dereference the DNS client that was never created).
+static std::string runHttpInitFailCell(const std::vector<std::string> &t)
+{
+  const std::string &bad = t[1], &url = t[2];
+  setSystemStore("right");
+  resetSslLog();
+  ServerPeer sp;
+  sp.kind = PeerKind::Tls;
+  sp.cert = "valid";
+  sp.ceil = TLS1_3_VERSION;
+  sp.http = true;
+  sp.start();
+  Relay relay;
+  relay.start(sp.port);
+  std::string r1 = "?", set2 = "?", r2 = "?", why = "-";
+  {
+    HttpClient::Config hc;
+    hc.connectTimeout = milliseconds(3000);
+    hc.requestTimeout = milliseconds(3000);
+    hc.reuseConnections = false;
+    HttpClient cl(hc);
+    HttpClient::TlsConfig tc;
+    tc.verifyPeer = true;
+    tc.caFile = trustFile(bad);
+    cl.setTlsConfig(tc);
+    std::string u1 = "https://127.0.0.1:" + std::to_string(relay.port) + "/c07?m=" + MARK;
+    try { auto resp = cl.get(u1); r1 = resp.statusCode == 200 ? "200" : "err"; }
+    catch (const std::exception &) { r1 = "err"; }
+    HttpClient::TlsConfig ok;
+    ok.verifyPeer = true;
+    try { cl.setTlsConfig(ok); set2 = "ok"; }
+    catch (const std::exception &) { set2 = "throw"; }
+    if (set2 != "ok") r2 = "skip";
+    else
+    {
+      std::string u2 = std::string("https://") + (url == "name" ? "localhost" : "127.0.0.1") + ":" + std::to_string(relay.port) + "/c07?m=" + MARK;
+      for (int attempt = 0; attempt < 3; ++attempt)
+      {
+        try
+        {
+          auto resp = cl.get(u2);
+          r2 = (resp.statusCode == 200 && resp.body.find("PONG") != std::string::npos) ? "200" : "err";
+          break;
+        }
+        catch (const std::exception &e)
+        {
+          r2 = "err";
+          why = e.what();
+          for (char &ch : why) if (ch == ' ' || ch == '\n') ch = '_';
+          if (why.find("imeout") == std::string::npos && why.find("imed_out") == std::string::npos) break;
+        }
+      }
+    }
+  }
+  sp.finish();
+  relay.finish();
+  bool clear = relay.sawClear(true, r2 == "200");
+  return "r1=" + r1 + " set2=" + set2 + " r2=" + r2 + " | cleartext=" + bit(clear) + " peerhs=" + bit(sp.out.hsOk) + " why=" + why.substr(0, 100);
+}
+
+// ---- UdpEngine: udp <connect|listen> <req>       a TLS mode on the datagram transport must be refused, never served in clear
+static std::string runUdpCell(const std::vector<std::string> &t)
+{
+  CellResult r;
+  TlsMode req = modeOf(t[2]);
+  TransportConfig cfg;
+  cfg.protocol = Protocol::UDP;
+  auto tr = Transport::udp(cfg);
+  auto sr = tr->start();
+  if (sr.isErr()) { r.plan = "refuse(start)"; return r.line(); }
+  std::string diag = "-";
+  if (t[1] == "connect")
+  {
+    std::uint16_t port = 0;
+    int ls = ::socket(AF_INET, SOCK_DGRAM | SOCK_CLOEXEC, 0);
+    sockaddr_in a{};
+    a.sin_family = AF_INET;
+    a.sin_addr.s_addr = htonl(INADDR_LOOPBACK);
+    ::bind(ls, (sockaddr *)&a, sizeof a);
+    socklen_t al = sizeof a;
+    ::getsockname(ls, (sockaddr *)&a, &al);
+    port = ntohs(a.sin_port);
+    auto cr = tr->connect("127.0.0.1", port, req);
+    if (cr.isOk()) { r.plan = "plain"; r.connected = true; }
+    else { r.plan = cr.error().code == TransportError::Config ? "refuse(connect)" : std::string("error(") + errName(cr.error().code) + ")"; }
+    ::close(ls);
+  }
+  else if (t[1] == "listen")
+  {
+    auto lr = tr->addListener("127.0.0.1", 0, req);
+    if (lr.isOk()) { r.plan = "plain"; r.connected = true; }
+    else { r.plan = lr.error().code == TransportError::Config ? "refuse(listen)" : std::string("error(") + errName(lr.error().code) + ")"; }
+  }
+  else throw std::invalid_argument("udp: unknown op");
+  tr->stop();
+  r.diag = diag;
+  return r.line();
+}
+
 int main(int argc, char **argv)
 {
   ::signal(SIGPIPE, SIG_IGN);
@@ -1887,6 +2132,9 @@ int main(int argc, char **argv)
       else if (t[0] == "hurl" && t.size() == 5) out = runUrlCell(t).line();
       else if (t[0] == "hreuse" && t.size() == 4) out = runReuseCell(t);
       else if (t[0] == "hreconf" && t.size() == 4) out = runReconfCell(t);
+      else if (t[0] == "hslife" && t.size() == 3) out = runHttpServerLifeCell(t);
+      else if (t[0] == "hinit" && t.size() == 3) out = runHttpInitFailCell(t);
+      else if (t[0] == "udp" && t.size() == 3) out = runUdpCell(t);
       else if (t[0] == "fires" && t.size() == 1)
       {
         std::lock_guard<std::mutex> g(g_imx);
